@@ -37,6 +37,16 @@ func TestMakeExemplars(t *testing.T) {
 		os.Setenv("VERIF_FAILFILE", filepath.Join(dir, name+".json"))
 		evid.WriteFailure(evid.Failure{Property: prop, Test: "layout", Message: "regression exemplar", Case: c})
 	}
+	// a * ( b + 1 ) with the '*' omitted and only a line feed (two, a tab, CR LF) between the factors
+	mul := []pratt.Tok{id("a"), op("*"), pu("("), id("b"), op("+"), num("1"), pu(")")}
+	juxt := map[string]JuxtCase{}
+	for name, sep := range map[string]string{"line-feed": "\n", "two-line-feeds": "\n\n", "tab": "\t", "cr-lf": "\r\n"} {
+		juxt["factor-set-off-by-"+name] = JuxtCase{Toks: mul, Drop: map[int]string{1: sep}, Seps: []string{"", " ", " ", " ", " ", " ", " "}}
+	}
+	for name, c := range juxt {
+		os.Setenv("VERIF_FAILFILE", filepath.Join(dir, name+".json"))
+		evid.WriteFailure(evid.Failure{Property: prop, Test: "juxt", Message: "regression exemplar", Case: c})
+	}
 	strs := map[string]StringCase{
 		"F17-alias-characters-in-string":            {S: "a×b÷c–d•eˆf"},
 		"F17-alias-characters-in-quoted-identifier": {S: "a×b", Quoted: true},
